@@ -351,8 +351,11 @@ def check(job):
                 got = "evaluation raises %r" % e
             viol.append(("out-of-range-accepted:" + fam, "%s, but the model generates; residual %r\n%s" % (info, got, text), {"text": text}))
     else:
-        if err is not None and getattr(model, "lenient", False):
+        lenient = getattr(model, "lenient", False)
+        if lenient:
             cls = "in-range, rejection tolerated"
+        if err is not None and lenient:
+            pass
         elif err is not None:
             viol.append(("in-range-rejected:%s:%s" % (fam, common.exc_sig(err)), "all subscripts are in range but generation raises %r\n%s" % (err, text), {"text": text}))
         else:
